@@ -81,6 +81,7 @@ type c20Env struct {
 	def  interface{}
 	lev  []*res.Event // listener events
 	idxL []string     // index listener calls
+	seq  int          // sequence number (varies the default value)
 }
 
 func (e *c20Env) open() error {
@@ -94,7 +95,12 @@ func (e *c20Env) open() error {
 		if cfg.Type == "model" {
 			e.def = map[string]interface{}{"a": "dflt", "z": 1.0}
 		} else {
-			e.def = []interface{}{"d0", "d1"}
+			// default collections of different lengths (0-5 items)
+			l := []interface{}{}
+			for k := 0; k < []int{2, 3, 1, 5, 0, 4}[e.seq%6]; k++ {
+				l = append(l, fmt.Sprintf("d%d", k))
+			}
+			e.def = l
 		}
 	}
 	e.rig = newRig("svc", func(s *res.Service) {
@@ -106,7 +112,8 @@ func (e *c20Env) open() error {
 				if !ok || it.K == "" {
 					return nil
 				}
-				return []byte(it.K)
+				// "<FF>" stands for the byte 0xFF, which a JSON string cannot carry
+				return []byte(strings.ReplaceAll(it.K, "<FF>", "\xff"))
 			}}}}
 			idxs.Listen(func(r res.Resource, before, after interface{}) {
 				e.idxL = append(e.idxL, fmt.Sprintf("any:%s:%s>%s", r.ResourceName(), jsonStr(before), jsonStr(after)))
@@ -178,7 +185,7 @@ func c20RandEvent(r *rand.Rand, cfg c20Cfg) c20Ev {
 		switch r.Intn(8) {
 		case 0:
 			if cfg.Index {
-				return c20Ev{Kind: "create", Value: c20Item{K: []string{"a", "ab", "b", ""}[r.Intn(4)], A: "new"}}
+				return c20Ev{Kind: "create", Value: c20Item{K: []string{"a", "ab", "b", "", "a<FF>", "a<FF>b"}[r.Intn(6)], A: "new"}}
 			}
 			m := map[string]interface{}{}
 			for _, k := range []string{"a", "b"} {
@@ -203,7 +210,7 @@ func c20RandEvent(r *rand.Rand, cfg c20Cfg) c20Ev {
 				}
 			case 1, 2:
 				if k == "k" {
-					ch[k] = []string{"a", "ab", "b", "", "abc"}[r.Intn(5)]
+					ch[k] = []string{"a", "ab", "b", "", "abc", "a<FF>", "a<FF><FF>"}[r.Intn(7)]
 				} else if cfg.Index {
 					ch[k] = []interface{}{"s", "t", 1.0}[r.Intn(3)]
 				} else {
@@ -378,7 +385,7 @@ func c20Run(c *core.Ctx, b core.Batch) {
 }
 
 func c20Sequence(c *core.Ctx, cfg c20Cfg, dir string, r *rand.Rand, seq int) bool {
-	e := &c20Env{c: c, cfg: cfg, dir: dir}
+	e := &c20Env{c: c, cfg: cfg, dir: dir, seq: seq}
 	if err := e.open(); err != nil {
 		c.Inconclusive("open: " + err.Error())
 		return false
@@ -546,7 +553,7 @@ func c20CheckIndex(c *core.Ctx, e *c20Env, states map[string]interface{}, before
 		}
 		m, _ := jsonNorm(v).(map[string]interface{})
 		s, _ := m["k"].(string)
-		return s
+		return strings.ReplaceAll(s, "<FF>", "\xff")
 	}
 	if rid != "" && !(ev.Kind == "delete" && before == nil) {
 		bk, ak := keyOf(before), keyOf(after)
@@ -589,7 +596,8 @@ func c20CheckIndex(c *core.Ctx, e *c20Env, states map[string]interface{}, before
 		rev    bool
 		limit  int
 		offset int
-	}{{"", false, -1, 0}, {"a", false, -1, 0}, {"ab", false, -1, 0}, {"", true, -1, 0}, {"a", true, 2, 0}, {"", false, 1, 1}, {"zz", false, -1, 0}} {
+	}{{"", false, -1, 0}, {"a", false, -1, 0}, {"ab", false, -1, 0}, {"", true, -1, 0}, {"a", true, 2, 0}, {"", false, 1, 1}, {"zz", false, -1, 0},
+		{"a", true, -1, 0}, {"a\xff", true, -1, 0}, {"a\xff", false, -1, 0}, {"ab", true, -1, 1}} {
 		var want []string
 		for _, x := range es {
 			if strings.HasPrefix(x.key, q.prefix) {
@@ -609,7 +617,7 @@ func c20CheckIndex(c *core.Ctx, e *c20Env, states map[string]interface{}, before
 		if q.limit >= 0 && q.limit < len(want) {
 			want = want[:q.limit]
 		}
-		qs := fmt.Sprintf("prefix=%s&limit=%d&offset=%d", q.prefix, q.limit, q.offset)
+		qs := fmt.Sprintf("prefix=%s&limit=%d&offset=%d", strings.ReplaceAll(q.prefix, "\xff", "%FF"), q.limit, q.offset)
 		if q.rev {
 			qs += "&rev=1"
 		}
